@@ -544,6 +544,19 @@ func writeImage(dir string, files map[string][]byte) {
 	}
 }
 
+// slowDir delays the Persist of segment files.
+type slowDir struct {
+	index.Directory
+	delay time.Duration
+}
+
+func (d *slowDir) Persist(kind string, id uint64, w index.WriterTo, closeCh chan struct{}) error {
+	if kind == index.ItemKindSegment {
+		time.Sleep(d.delay)
+	}
+	return d.Directory.Persist(kind, id, w, closeCh)
+}
+
 // ---------------------------------------------------------------- lifetimes
 
 func (h *HR) newCase(lt *lifetime, dir, work string, f []string) *caseRun {
@@ -552,6 +565,12 @@ func (h *HR) newCase(lt *lifetime, dir, work string, f []string) *caseRun {
 		rng: hlib.NewRand(uint64(kvInt(f, "seed", 1))), files: map[string][]byte{}, inflight: map[string][]byte{},
 		isFile: map[uint64]bool{}, epochK: map[uint64]int{}, introSem: make(chan struct{}, 1), tokC: map[int]int{},
 		acked: map[int]bool{}, readers: map[int]*index.Snapshot{}, imgEvery: 8, prev: map[string][]byte{}, junk: map[string][]byte{}, lt: lt, mergeSeg: map[uint64]bool{}}
+	if slow := kvInt(f, "slow", 0); slow > 0 {
+		// every segment Persist takes `slow` ms longer: batches are introduced while a merge / a persist is in flight
+		c.wrapDir = func(inner index.Directory) index.Directory {
+			return &slowDir{Directory: inner, delay: time.Duration(slow) * time.Millisecond}
+		}
+	}
 	nap := kvInt(f, "nap", 0)
 	noMerge := c.merge < 0
 	if nap > 0 || noMerge {
@@ -1064,6 +1083,36 @@ func (h *HR) Gen(r *hlib.Rand, tier string, scale int, emit func(string)) {
 			emit("end")
 			emit(fmt.Sprintf("fork depth=2 kind=acked sel=%d var=%d unsafe=0 merge=2 jit=1 seed=%d", r.Intn(1000), r.Intn(1000), r.Intn(1<<30)))
 			emit("b " + mk(false))
+			emit("end")
+			continue
+		}
+		if ci%8 == 6 {
+			// batches that update the same few keys arrive, without waiting for anything, while the persister merges the
+			// in-memory segments holding those keys (slow segment writes): the snapshot written after the merge must still
+			// be the root that was grabbed — a whole prefix — although the merged segment was introduced into a newer root
+			emit(fmt.Sprintf("case %d n=%d unsafe=1 merge=2 jit=0 slow=6 seed=%d", ci, n, r.Intn(1<<30)))
+			for round := 0; round < 3; round++ {
+				for i := 0; i < 5; i++ {
+					tok++
+					sp := batchSpec{tok: tok, keys: []int{i % 2, 2 + (i+round)%2}}
+					if i%2 == 1 && tok > 2 {
+						sp.dels = []int{tok - 2}
+					}
+					emit("b " + sp.String())
+					emit("wait") // 2 ms: the next batch arrives while the persister is still writing
+				}
+				tok++
+				emit("b " + batchSpec{tok: tok, cb: true, keys: []int{0}}.String())
+			}
+			emit("end")
+			emit(fmt.Sprintf("fork depth=1 kind=acked sel=%d var=%d unsafe=1 merge=2 jit=0 nap=0 slow=4 seed=%d", r.Intn(1000), r.Intn(1000), r.Intn(1<<30)))
+			for i := 0; i < 4; i++ {
+				tok++
+				emit("b " + batchSpec{tok: tok, keys: []int{i % 2}}.String())
+				emit("wait")
+			}
+			tok++
+			emit("b " + batchSpec{tok: tok, cb: true}.String())
 			emit("end")
 			continue
 		}
